@@ -82,7 +82,7 @@ def main():
         try:
             got = [mod.model_term(cases[i], results[i]) for i in idx]
             want = [lib.to_obs(results[i]["obs"]) for i in idx]
-            bad = lib.coq_eval(pid, mod.IMPORTS, got, want)
+            bad = lib.coq_eval(pid, mod.IMPORTS, got, want, shard=getattr(mod, 'SHARD', 400))
             corr_bad = [idx[b] for b in bad]
         except lib.CoqError as e:
             corr_err = str(e)
